@@ -250,3 +250,57 @@ theorem negotiate_data_prefix (p : Bytes) (s : St) (bs : Bytes) :
     exact ih (step s c)
 
 end Scrapli.Telnet
+
+namespace Scrapli.Telnet
+open Scrapli
+
+/-! ### `Read(n)`: nothing buffered is lost, for either correct treatment of `initialBuf` -/
+
+theorem readsN_conserve (p : BufPolicy) (hp : p ≠ .dropRest) (n : Nat) (hn : 1 ≤ n) :
+    ∀ (k : Nat) (t : Conn), t.size ≤ k →
+      (Conn.readsN p n k t).flatten = t.initialBuf ++ t.sock.flatten := by
+  intro k
+  induction k with
+  | zero =>
+    intro t ht
+    obtain ⟨buf, sock⟩ := t
+    simp only [Conn.size, Nat.le_zero, Nat.add_eq_zero_iff, List.length_eq_zero_iff] at ht
+    obtain ⟨hb, hs⟩ := ht
+    subst hb
+    cases sock with
+    | nil => rfl
+    | cons c cs => simp only [List.map_cons, List.sum_cons] at hs; omega
+  | succ k ih =>
+    intro t ht
+    obtain ⟨buf, sock⟩ := t
+    cases buf with
+    | nil =>
+      cases sock with
+      | nil => simp [Conn.readsN, Conn.readN]
+      | cons c cs =>
+        simp only [Conn.size, List.length_nil, List.map_cons, List.sum_cons, Nat.zero_add] at ht
+        by_cases hc : c.length ≤ n
+        · have := ih ⟨[], cs⟩ (by simp only [Conn.size, List.length_nil, Nat.zero_add]; omega)
+          simp only [Conn.readsN, Conn.readN, List.length_nil, Nat.lt_irrefl, if_false, hc, if_true,
+            List.flatten_cons, this, List.nil_append]
+        · have := ih ⟨[], c.drop n :: cs⟩ (by
+            simp only [Conn.size, List.length_nil, Nat.zero_add, List.map_cons, List.sum_cons,
+              List.length_drop]; omega)
+          simp only [Conn.readsN, Conn.readN, List.length_nil, Nat.lt_irrefl, if_false, hc,
+            List.flatten_cons, this, List.nil_append]
+          rw [← List.append_assoc, List.take_append_drop]
+    | cons x xs =>
+      simp only [Conn.size, List.length_cons] at ht
+      have hlen : (x :: xs).length > 0 := by simp
+      cases p with
+      | dropRest => exact absurd rfl hp
+      | whole =>
+        have := ih ⟨[], sock⟩ (by simp only [Conn.size, List.length_nil, Nat.zero_add]; omega)
+        simp only [Conn.readsN, Conn.readN, hlen, if_true, List.flatten_cons, this, List.nil_append]
+      | keepRest =>
+        have := ih ⟨(x :: xs).drop n, sock⟩ (by
+          simp only [Conn.size, List.length_drop, List.length_cons]; omega)
+        simp only [Conn.readsN, Conn.readN, hlen, if_true, List.flatten_cons, this]
+        rw [← List.append_assoc, List.take_append_drop]
+
+end Scrapli.Telnet
